@@ -39,19 +39,8 @@ def run(ctx):
            what="begin_with_isolation does not pass its isolation level to the new transaction", where=bw.loc())
     # validation only reads the sets: a commit that is refused returns with the transaction still Active, so whatever
     # commit removed from its read or write set is missing when the transaction (or a later committer) is validated again
-    E = ctx.effects()
-    nacc = 0
-    for g in P.family(commit):
-        for a in E.own_acc(g):
-            if a.cell[0] == common.TXINFO and a.cell[1] in ("read_set", "write_set"):
-                nacc += 1
-                bad = E.is_write(a) or a.how in ("refmut",) or any(o.split("::")[-1] in ("take", "replace", "swap", "drain", "clear", "retain") for o in a.ops)
-                ctx.ob("R8", "TransactionManager::commit#%s-read-only" % a.cell[1], not bad,
-                       what="TransactionManager::commit modifies TxInfo.%s (%s %s) while validating: after a refused commit the "
-                            "transaction stays Active with a changed set, and the next validation (a retry, or a later committer) "
-                            "works on the wrong set" % (a.cell[1], a.kind, sorted(o.split("::")[-1] for o in a.ops)[:4]),
-                       where=g.loc(a.line))
-    ctx.floor("R8", nacc, 4, "accesses to the read/write sets in commit")
+    sets_read_only(ctx, P, commit, "R8", ("read_set", "write_set"), 4)
+    atomic_validate_publish(ctx, P, commit, "R9", [("TransactionError", "SerializationFailure"), ("TransactionError", "WriteConflict")])
     sf = find_aggregates(commit, "TransactionError", "SerializationFailure")
     ctx.floor("R2", len(sf), 1, "SerializationFailure constructions in TransactionManager::commit")
     for n, (bi, si, rv, ln) in enumerate(sf):
@@ -73,3 +62,49 @@ def run(ctx):
         ctx.ob("R3", inst, wr,
                what="SerializationFailure refusal is not gated on the transaction having written anything: a read-only serializable transaction can be refused",
                where=commit.loc(ln))
+
+
+def sets_read_only(ctx, P, commit, rule, cells, floor):
+    """commit's validation only reads TxInfo.read_set / write_set (shared with C03 for the write set)"""
+    E = ctx.effects()
+    nacc = 0
+    for g in P.family(commit):
+        for a in E.own_acc(g):
+            if a.cell[0] == common.TXINFO and a.cell[1] in cells:
+                nacc += 1
+                bad = E.is_write(a) or a.how in ("refmut",) or any(o.split("::")[-1] in ("take", "replace", "swap", "drain", "clear", "retain") for o in a.ops)
+                ctx.ob(rule, "TransactionManager::commit#%s-read-only" % a.cell[1], not bad,
+                       what="TransactionManager::commit modifies TxInfo.%s (%s %s) while validating: after a refused commit the "
+                            "transaction stays Active with a changed set, and the next validation (a retry, or a later committer) "
+                            "works on the wrong set" % (a.cell[1], a.kind, sorted(o.split("::")[-1] for o in a.ops)[:4]),
+                       where=g.loc(a.line))
+    ctx.floor(rule, nacc, floor, "accesses to %s in commit" % "/".join(cells))
+
+
+def atomic_validate_publish(ctx, P, commit, rule, refusals):
+    """validation and publication of a commit are one critical section: one exclusive guard on the transaction table
+    is held from before every refusal decision until the state becomes Committed. With the two steps under different
+    guards, two committers validate against a table in which the other is still Active and both commit."""
+    from .locks import acquisitions, held_region
+    E = ctx.effects()
+    acqs = [a for a in acquisitions(commit) if a[2] and a[2][1] == "transactions"]
+    ctx.floor(rule, len(acqs), 1, "acquisitions of TransactionManager.transactions in commit")
+    pub = sorted({b for b in range(len(commit.blocks)) for a in E.own_acc(commit)
+                  if a.block == b and a.cell[0] == common.TXINFO and a.cell[1] == "state" and E.is_write(a)})
+    ref = []
+    for variant_owner, variant in refusals:
+        ref += [bi for bi, si, rv, ln in find_aggregates(commit, variant_owner, variant)]
+    ctx.floor(rule, len(pub), 1, "assignments of TxInfo.state in commit")
+    ctx.floor(rule, len(ref), 1, "refusal constructions in commit")
+    ok = False
+    detail = []
+    for bi, mode, cell, guard, line in acqs:
+        region, kills = held_region(commit, bi, guard)
+        covers = all(b in region for b in pub) and all(b in region for b in ref)
+        detail.append("line %d (%s): covers publication=%s, refusals=%s" % (line, mode, all(b in region for b in pub), all(b in region for b in ref)))
+        if covers and mode == "W":
+            ok = True
+    ctx.ob(rule, "TransactionManager::commit#validate-and-publish-one-guard", ok,
+           what="no single exclusive guard on the transaction table spans both the conflict checks and `state = Committed` "
+                "in TransactionManager::commit (%s): concurrent committers can validate against each other's Active state and "
+                "both commit" % "; ".join(detail), where=commit.loc())
